@@ -629,7 +629,7 @@ def seq_flatten(ctx):
     return _emit(d)
 
 
-@rule("REPEAT-OPTIMIZE", ["C20", "C08", "C01", "C02"], floor=8)
+@rule("REPEAT-OPTIMIZE", ["C20", "C08", "C01", "C02", "C16"], floor=8)
 def repeat_optimize(ctx):
     """optimize() preserves bounds: Repeat raises min 0->1 only when the (optimised) child matches the empty string
     anywhere; GreedyFixed becomes Nothing only for max=0 and the bare child only for a zero-length child; every other
